@@ -337,7 +337,8 @@ func TestVerifC10(t *testing.T) {
 					c := c10Case{History: h, Size: sz, CrashAt: k, Torn: torn}
 					vs, _ := runC10(c)
 					// the restarted daemon may itself be killed during the clean-up: every point of it
-					for k2 := 1; k2 <= cleanupOps && !torn; k2++ {
+					nClean := cleanupOps // (runC10 overwrites the package variable)
+					for k2 := 1; k2 <= nClean && !torn; k2++ {
 						c2 := c
 						c2.Crash2 = k2
 						vs2, _ := runC10(c2)
